@@ -10,11 +10,6 @@ Import ListNotations.
 Open Scope N_scope.
 Local Notation s_ := str_of_string.
 
-(* the length-indexed counters are dicts: their keys are distinct *)
-Definition pcounters_wf (P : pcounters) : Prop :=
-  NoDup (map fst (pc_alpha P)) /\ NoDup (map fst (pc_digits P)) /\ NoDup (map fst (pc_other P)) /\
-  NoDup (map fst (pc_keyboard P)) /\ NoDup (map fst (pc_masks P)).
-
 Lemma filename_list_lkeys_nodup (O : numops) (d : list (N * list (str * N))) :
   NoDup (map fst d) -> NoDup (filename_list (@lkeys O d)).
 Proof.
